@@ -11,6 +11,8 @@ from the code's evident intent, not from properties.jsonl).
      thread polling status.json) recorded as ndjson and judged by TLC against trace/StatusTrace (property level).
      Only this decides a VIOLATION; a difference from Status.tla that keeps the properties is drift.
   4. kill -9 at random instants: status.json is always a complete document.
+  5. observations (never verdicts): documents that mix instants, adds lost at the clear, the event cut at 4096 bytes,
+     request accounting of the real ProxyServer (rig).
 ExtensionTopN (P9) is model-level only: get_top_proxy_connection_summary is private to service_main.rs."""
 import bisect
 import json
@@ -256,6 +258,10 @@ def abstract_event(message, doc, msgs, notes):
             if whole.startswith(message):
                 notes["status_event_cut_at_4096_not_json"] = notes.get("status_event_cut_at_4096_not_json", 0) + 1
                 return abstract_pas(doc["proxyAgentStatus"], msgs, [])
+        if doc is None and len(message.encode()) >= 4093:
+            # cut at 4096 and no document of the same iteration to compare with (the write was refused)
+            notes["status_event_cut_at_4096_not_json"] = notes.get("status_event_cut_at_4096_not_json", 0) + 1
+            return {"cut": True}
         return {"status": "unparsable", "mon": "?", "count": -1, "det": {}}
     why = []
     a = abstract_pas(pas, msgs, why)
@@ -408,6 +414,9 @@ def run_driver(bindir, name, first, cmds, shim=None, timeout=120, kill_after=Non
         p = subprocess.Popen([exe], env=env, cwd=d, stdin=subprocess.PIPE, stdout=subprocess.DEVNULL, stderr=subprocess.DEVNULL)
         p.stdin.write(inp.encode())
         p.stdin.flush()
+        t0 = time.time()      # the kill timer starts once the task publishes
+        while not os.path.exists(os.path.join(d, "status", "status.json")) and time.time() - t0 < 10 and p.poll() is None:
+            time.sleep(0.002)
         time.sleep(kill_after)
         p.send_signal(signal.SIGKILL)
         p.wait()
@@ -521,8 +530,8 @@ def strip(o):
         return o
 
     def d(a):
-        if a is None:
-            return None
+        if a is None or a.get("cut"):
+            return a
         r = {"status": a["status"], "mon": a["mon"], "count": a["count"],
              "det": {m: {"status": a["det"][m]["status"],
                          "message": {"id": "unk" if a["det"][m]["message"]["id"] == "unk" else a["det"][m]["message"]["id"],
@@ -623,13 +632,13 @@ def stress_rows(raw, msgs, base, notes):
 
 
 # ---------------------------------------------------------------------------------------------------------------------
-MC = [
+MC = [     # largest first (they run three at a time)
     ("Status_states.cfg", ["EnvSetState", "GetState", "GetMessage", "RenameTmp", "Wake"]),
-    ("Status_bags.cfg", ["AddConnection", "AddFailed", "Tick", "StatusEvent", "ClearCheck", "RenameTmp"]),
+    ("Status_crash.cfg", ["Crash", "CreateTmp", "WriteTmp", "RenameTmp", "SetMonitorMessage"]),
+    ("Status_window.cfg", ["EnvSetState", "AddConnection", "AddFailed", "RenameTmp", "Wake"]),
     ("Status_counts.cfg", ["AddConnection", "IncreaseConnectionCount", "IncreaseTcpConnectionCount", "ClearCheck"]),
     ("Status_msgs.cfg", ["EnvSetMessage", "GetMessage", "GetMonitorMessage", "RenameTmp"]),
-    ("Status_crash.cfg", ["Crash", "CreateTmp", "WriteTmp", "RenameTmp", "SetMonitorMessage"]),
-    ("Status_window.cfg", ["EnvSetState", "AddConnection", "RenameTmp", "Wake"]),
+    ("Status_bags.cfg", ["AddConnection", "AddFailed", "Tick", "StatusEvent", "ClearCheck", "RenameTmp"]),
     ("Status_topn.cfg", ["AddConnection", "RenameTmp"]),
 ]
 WITNESS = [("Status_torn.cfg", "NoPhantomSuccess", "non_property_single_instant_snapshot"),
@@ -720,6 +729,8 @@ def lockstep_phase(c, bindir, shim, rnd, msgs, nrand):
             if want is None:
                 raise util.ToolError("no EXPECT line for script row %d" % gi)
             a, b = strip(dict(o, i=gi)), strip(want)
+            if a.get("event") == {"cut": True} and b.get("event") is not None:
+                a["event"] = b["event"]            # payload not comparable (see abstract_event)
             if a != b:
                 drift.append({"history": hi, "row": o["i"], "got": a, "spec": b})
             elif o.get("kind") == "doc":
@@ -861,7 +872,7 @@ def kill_phase(c, bindir, rnd, msgs, n):
                           for _ in range(50)]},
                  {"ops": [{"op": "set_state", "module": "KeyKeeper", "state": s, "sleep_us": 10} for s in STATES * 5]}]
         d, _ = run_driver(bindir, "x01_kill", {"op": "init", "mode": "stress", "interval_ms": 1, "tasks": tasks, "forever": True},
-                          [], kill_after=rnd.uniform(0.02, 0.12))
+                          [], kill_after=rnd.uniform(0.003, 0.06))
         p = os.path.join(d, "status", "status.json")
         c.count(n=1)
         if not os.path.exists(p):
@@ -879,6 +890,47 @@ def kill_phase(c, bindir, rnd, msgs, n):
     c.extra["kill_runs"] = {"runs": n, "bad": bad}
 
 
+def composition_phase(c, bindir, rnd):
+    """observation only: the real ProxyServer feeding the real actor and status task (lib/vlib/rig.py).  Plain WireServer
+    requests by root, rules switched between none and deny/enforce: every request is one IncreaseConnectionCount and one
+    entry in the connection summary; every refused one is also one entry in the failed-authorization summary."""
+    name = "x01_rig"
+    sd = os.path.join(util.BUILD, "run", name, "status")
+    deny = {"defaultAccess": "deny", "mode": "enforce", "id": "x01deny", "rules": None}
+    steps, n = [], 0
+    for ci in range(10):
+        tag = "c%d" % ci
+        if rnd.random() < 0.5:
+            steps.append({"op": "set_rules", "ep": "ws", "doc": rnd.choice([deny, None])})
+        steps.append({"op": "connect", "conn": tag, "attr": {"uid": 0, "admin": 1, "dip": "168.63.129.16", "dport": 80}})
+        for r in range(rnd.randint(1, 3)):
+            n += 1
+            steps.append({"op": "request", "conn": tag, "id": "%s_%d" % (tag, r), "method": rnd.choice(["GET", "POST"]),
+                          "target": "/machine?comp=goalstate", "headers": [["Host", "h"]]})
+        steps.append({"op": "close", "conn": tag})
+    steps.append({"op": "sleep", "ms": 300})
+    ev, d, _ = rig.run_rig({"steps": steps, "status_task": {"interval_ms": 20, "dir": sd}, "drain_ms": 200}, name,
+                           timeout=180, bindir=bindir)
+    st = [e["status"] for e in ev if e.get("e") == "Response"]
+    try:
+        with open(os.path.join(sd, "status.json"), encoding="utf-8") as f:
+            doc = json.load(f)
+    except (OSError, ValueError) as ex:
+        c.violation("status.json left by the agent is not a complete document: %s" % ex,
+                    {"phase": "composition", "broken": "FileNeverHalfWritten"}, {"steps": steps})
+        return
+    sc = sum(x["count"] for x in doc["proxyConnectionSummary"])
+    sf = sum(x["count"] for x in doc["failedAuthenticateSummary"])
+    cnt = doc["proxyAgentStatus"]["proxyConnectionsCount"]
+    c.extra["composition_proxy_accounting"] = {
+        "requests": n, "responses": len(st), "refused_403": st.count(403), "proxyConnectionsCount": cnt,
+        "sum_connection_summary": sc, "sum_failed_summary": sf,
+        "consistent": cnt == n and sc == n and sf == st.count(403),
+        "listener": doc["proxyAgentStatus"]["proxyListenerStatus"]["status"],
+        "note": "observation, not a verdict: a refused request is counted in BOTH bags (403 in the connection summary, "
+                "'Authorize failed' in the failed-authorization summary)"}
+
+
 def run(c):
     thorough = c.tier == "thorough"
     rnd = random.Random(c.seed)
@@ -887,10 +939,11 @@ def run(c):
     shim = build_shim()
     msgs = Messages()
     model_checking(c)
-    lockstep_phase(c, bindir, shim, rnd, msgs, 150 if thorough else 24)
-    stress_phase(c, bindir, rnd, msgs, 24 if thorough else 8)
+    lockstep_phase(c, bindir, shim, rnd, msgs, 500 if thorough else 24)
+    stress_phase(c, bindir, rnd, msgs, 60 if thorough else 8)
     lost_at_clear(c, bindir, shim, rnd, msgs)
-    kill_phase(c, bindir, rnd, msgs, 40 if thorough else 8)
+    kill_phase(c, bindir, rnd, msgs, 100 if thorough else 8)
+    composition_phase(c, bindir, rnd)
     c.extra["extension_top_n"] = ("model level only (Status.tla ExtensionTopN, mc/Status_topn.cfg): "
                                   "get_top_proxy_connection_summary is private to service_main.rs; nothing transcribed")
     c.rule = ("S->I: every lock-step history (fixed + seeded) is run through gen/StatusGen and on the real actor + status task; "
